@@ -292,7 +292,10 @@ def build_b(case):
         nodes = []
         for i, rec in enumerate(recs):
             kids = kids_of[i]
-            attrs = [ir.AttrGraph(f"b{j}", graphs[k]) for j, k in enumerate(kids)]
+            if len(kids) == 2 and (i + len(recs)) % 2 == 0:
+                attrs = [ir.AttrGraphs("branches", [graphs[k] for k in kids])]  # both bodies in ONE list-of-graphs attribute
+            else:
+                attrs = [ir.AttrGraph(f"b{j}", graphs[k]) for j, k in enumerate(kids)]
             n = ir.Node("", "Op", [None] * len(rec[4]), attrs, num_outputs=len(rec[3]), name="tmp")
             graphs[node_graph[i]].append(n)
             nodes.append(n)
